@@ -275,6 +275,8 @@ package coroutines
 //@ requires c != nil && promiseCmd != nil && promiseCmd.Param.Headers != nil && promiseCmd.Param.Data != nil && promiseCmd.Tags != nil
 //@ requires taskCmd != nil ==> taskCmd.Mesg != nil && (taskCmd.State == task.Init || taskCmd.State == task.Claimed) && (taskCmd.State != task.Claimed || taskCmd.ProcessId != nil)
 //@ requires taskCmd != nil ==> taskCmd.Mesg.Root == promiseCmd.Id
+// one transaction: the create command followed by every command the caller passed (the schedule advance of SchedulePromises, C10)
+//@ site yield store assert len(cmds) == len(additionalCmds) + 1
 //@ ensures [await C08 C10] err == nil ==> result0 != nil && result0.Store != nil && len(result0.Store.Results) >= 1 && result0.Store.Results[0] != nil
 //@ ensures [await C08 C10] err == nil ==> (result0.Store.Results[0].Kind == t_aio.CreatePromise && result0.Store.Results[0].CreatePromise != nil) || (result0.Store.Results[0].Kind == t_aio.CreatePromiseAndTask && result0.Store.Results[0].CreatePromiseAndTask != nil)
 //@ ensures [await C08 C10] err != nil ==> result0 == nil
@@ -285,6 +287,7 @@ package coroutines
 // same filter and the sort id of the last row. K is an arbitrary index into the page.
 //@ func SearchPromises
 //@ props C04 C14
+//@ serves C05 C06 C08
 //@ ghostdb coroutine
 //@ nopanic C13
 //@ ghost K int
